@@ -6,7 +6,7 @@ from fractions import Fraction as F
 import numpy as np
 from hypothesis import strategies as st
 
-from vlib import gen, kit
+from vlib import gen, kit, refbt
 from vlib.runner import Part, Result, Violation
 from vlib.sut import load
 
@@ -90,6 +90,7 @@ def run_case(case):
         raise Violation('%s was accepted: weights %r prices %r -> %r' % (inv, weights, dh.q, out))
 
     all_cls, any_nt = [], False
+    fee_now = case['fee']
     vectors = [weights] + [dict(w) for w in case.get('more_weights', [])]
     for call_no, weights in enumerate(vectors):
         if call_no and case.get('move_cash'):
@@ -98,11 +99,16 @@ def run_case(case):
             if c_ > 2:
                 b.withdraw_funds_from_portfolio('p', float('%.6g' % (0.4 * c_)))
                 all_cls.append('equity_changed_between_calls')
+        if call_no and case.get('swap_fee') is not None:
+            # the broker's fee schedule changes while the sizer lives on: the sizer must follow the broker's model
+            b.fee_model = kit.fee_model(case['swap_fee'] or None)
+            fee_now = case['swap_fee'] or None
+            all_cls.append('fee_model_replaced')
         E = F(b.get_portfolio_total_equity('p'))
         out = sizer(kit.T_OPEN, dict(weights))
         if set(out.keys()) != set(weights.keys()):
             raise Violation('target keys %s differ from weight keys %s' % (sorted(out), sorted(weights)))
-        f = kit.fee_rate(case['fee'])
+        f = kit.fee_rate(fee_now)
         b_ = F(buf)
         budget = (1 - b_) * E
         wsum_float = sum(w for w in weights.values())
@@ -142,6 +148,23 @@ def run_case(case):
                 half = True
             if x >= 10 ** 11:
                 cls.append('huge_quantity')
+        # exact clause: away from float-ambiguous quotients the quantity is the truncation of the exact quotient
+        if wsum != 0 and not unscaled:
+            try:
+                ref = refbt.size_long_only(E, b_, None if f == 0 else list(fee_now), {a: F(w) for a, w in weights.items()},
+                                           {a: F(dh.q[a][1]) for a in weights})
+            except refbt.Ambiguous:
+                ref = None
+                cls.append('quotient_within_1e-12_of_a_whole_number')
+            if ref is not None:
+                for a in weights:
+                    if out[a]['quantity'] != ref[a]:
+                        raise Violation('%s: quantity %d, truncating (allocation after fees) / price = %r gives %d '
+                                        '(E=%r buffer=%r w=%r/%r f=%r price=%r)' % (
+                                            a, out[a]['quantity'], float((budget * F(weights[a]) / wsum) * (1 - f) / F(dh.q[a][1])),
+                                            ref[a], float(E), buf, weights[a], float(wsum), float(f), dh.q[a][1]))
+                if case.get('exact_multiple'):
+                    cls.append('allocation_is_exact_multiple_of_price')
         if total > budget * (1 + REL):
             raise Violation('whole target costs %r > (1-buffer)*equity %r' % (float(total), float(budget)))
         npos = sum(1 for w in weights.values() if w > 0)
@@ -246,7 +269,17 @@ def cases(draw):
     elif inv == 'nan_price':
         case['nan_asset'] = draw(st.sampled_from(assets))
         case.pop('hold', None)
+    if inv is None and draw(st.sampled_from([False] * 9 + [True])):
+        # the whole allocation is an exact multiple of the price: the quotient is a whole number with nothing to truncate
+        a = assets[0]
+        pz = draw(st.sampled_from([3.0, 7.0, 11.0, 13.0, 49.0, 97.0, 1001.0, 0.5, 0.25]))
+        case.update({'weights': {a: draw(st.sampled_from([1.0, 0.5, 3.0]))}, 'prices': {a: pz},
+                     'equity': pz * draw(st.integers(1, 200000)), 'buffer': 0.0, 'fee': None, 'exact_multiple': True})
+        case.pop('hold', None)
+        case.pop('more_weights', None)
+        case.pop('hold_price', None)
     case['move_cash'] = draw(st.booleans())
+    case['swap_fee'] = draw(st.sampled_from([None, None, [0.01, 0.005], [0.0, 0.0]]))
     if inv:
         case['invalid'] = inv
         case.pop('more_weights', None)
@@ -294,7 +327,8 @@ def run_csv(case, long_only=True):
             out = sizer(t, dict(weights))
         except ValueError:
             if unpriced:
-                return Result(['rejected_unpriced_asset'], nontrivial=True)
+                return Result(['rejected_unpriced_asset'] + (['first_bar_has_no_open_and_asked_at_that_open']
+                              if case.get('blank_first_open') and case.get('where') == 'at_open' else []), nontrivial=True)
             raise Violation('sizing at %s raised although every asset is priced (%s)' % (t, price))
         finally:
             clear_caches()
@@ -324,6 +358,11 @@ def csv_cases(draw, long_only=True):
     for i, s in enumerate(names):
         off = 0 if i < late else draw(st.integers(3, 12))
         syms[s] = market.build_rows(seed + i, d0 + D.timedelta(days=off), 25) or market.build_rows(seed, d0, 25)
+    blank = draw(st.sampled_from([False, False, True]))
+    if blank:
+        # the latest-starting symbol's first bar has an empty Open cell: nothing to trade at until that day's close
+        for s in names[late:]:
+            syms[s][0][3] = None
     first_late = max(market.first_date(r) for r in syms.values())
     where = draw(st.sampled_from(['before', 'before', 'just_before', 'at_open', 'after']))
     if where == 'before':
@@ -337,7 +376,7 @@ def csv_cases(draw, long_only=True):
         d = first_late + D.timedelta(days=draw(st.integers(1, 5)))
         t = [d.year, d.month, d.day, 21, 0, 0]
     w = {s: (draw(st.sampled_from([0.0, 0.5, 1.0, 0.25])) * (1 if long_only or draw(st.booleans()) else -1)) for s in names}
-    return {'symbols': syms, 't': t, 'weights': w, 'equity': draw(st.sampled_from([1e6, 1e4, 250000.0])),
+    return {'blank_first_open': blank, 'where': where, 'symbols': syms, 't': t, 'weights': w, 'equity': draw(st.sampled_from([1e6, 1e4, 250000.0])),
             'fee': draw(st.sampled_from([None, [0.001, 0.005]])), 'adjust': draw(st.booleans()),
             'arg': draw(st.sampled_from([0.05, 0.0, 0.3])) if long_only else draw(st.sampled_from([1.0, 2.0, 0.5]))}
 
